@@ -169,7 +169,7 @@ def _has_none(x) -> bool:
 def run(tier: str, seed: int) -> int:
     t0 = time.time()
     th = tier == "thorough"
-    maxf, dm, dv = (3, 4, 2) if th else (2, 3, 2)
+    maxf, dm, dv = (3, 3, 2) if th else (2, 3, 2)
     vecs = G.enumerate_models(dm, maxf, CATS)
     tasks = []
     for v in vecs:
